@@ -1455,6 +1455,8 @@ fn parse_mapping(mapping: &Mapping) -> crate::Result<Expression> {
                         group.push(Expression::Search(s, f.to_owned(), cast));
                     } else {
                         multiple = true;
+                        #[cfg(feature = "verif")]
+                        crate::verif::hit(crate::verif::Arm::PARSE_BATCH_AHO);
                         group.push(Expression::Search(
                             Search::AhoCorasick(
                                 Box::new(
@@ -1473,6 +1475,8 @@ fn parse_mapping(mapping: &Mapping) -> crate::Result<Expression> {
                 }
                 if !ineedles.is_empty() {
                     multiple = true;
+                    #[cfg(feature = "verif")]
+                    crate::verif::hit(crate::verif::Arm::PARSE_BATCH_IAHO);
                     group.push(Expression::Search(
                         Search::AhoCorasick(
                             Box::new(
@@ -1501,6 +1505,8 @@ fn parse_mapping(mapping: &Mapping) -> crate::Result<Expression> {
                         ));
                     } else {
                         multiple = true;
+                        #[cfg(feature = "verif")]
+                        crate::verif::hit(crate::verif::Arm::PARSE_BATCH_REGEX_SET);
                         group.push(Expression::Search(
                             Search::RegexSet(
                                 RegexSetBuilder::new(
@@ -1530,6 +1536,8 @@ fn parse_mapping(mapping: &Mapping) -> crate::Result<Expression> {
                         ));
                     } else {
                         multiple = true;
+                        #[cfg(feature = "verif")]
+                        crate::verif::hit(crate::verif::Arm::PARSE_BATCH_IREGEX_SET);
                         group.push(Expression::Search(
                             Search::RegexSet(
                                 RegexSetBuilder::new(
@@ -1578,9 +1586,13 @@ fn parse_mapping(mapping: &Mapping) -> crate::Result<Expression> {
                     group.into_iter().next().expect("could not get expression")
                 } else if let Expression::Match(m, _) = e {
                     if group.len() == 1 {
+                        #[cfg(feature = "verif")]
+                        crate::verif::hit(crate::verif::Arm::PARSE_MATCH_SINGLE);
                         let group = group.into_iter().next().expect("could not get expression");
                         Expression::Match(m, Box::new(group))
                     } else {
+                        #[cfg(feature = "verif")]
+                        crate::verif::hit(crate::verif::Arm::PARSE_MATCH_GROUP);
                         Expression::Match(m, Box::new(Expression::BooleanGroup(BoolSym::Or, group)))
                     }
                 } else {
